@@ -23,7 +23,7 @@ from haiway import MISSING, State, ctx  # noqa: E402
 ID = "C11"
 TECHNIQUE = "exhaustive enumeration of generator shape x creation place x consumption place x consumption mode on the real ctx.stream under a hand-stepped loop with owned GC / async-generator finalisation points"
 RULE = (
-    "generators with 0..3 items ending normally / with an exception, feature in {plain, nested "
+    "generators with 0..3 items ending normally / with an exception (handed over as generator function, as a plain function returning the generator, as functools.partial, as callable object), feature in {plain, nested "
     "scope around the yields, record a metric, spawn a task, nested stream, nested scope entry given up on a timeout}; created inside a "
     "scope (A#1), outside, or by a task under two already completed scopes; consumed in the same scope / a different scope (A#2) / outside any "
     "scope / another task; fully, break after item j, aclose after item j, or never started and "
@@ -59,6 +59,12 @@ PLACES = ["same", "other-scope", "outside", "other-task"]
 
 def programs(tier: str):
     yield from _two_programs(tier)
+    # sources that are not bare generator functions
+    for form in ("wrapper", "partial", "object"):
+        for created in ("in-scope", "outside"):
+            for place in PLACES:
+                for mode in (["full"], ["break", 1], ["aclose", 1]):
+                    yield {"k": 2, "end": "normal", "feature": "plain", "created": created, "place": place, "mode": mode, "source_form": form}
     for k in BOUNDS[tier]["items"]:
         for end in ("normal", "error"):
             for feature in FEATURES:
@@ -311,7 +317,7 @@ def execute(program, ch: Chooser) -> Result:  # noqa: C901, PLR0912, PLR0915
         gen_probe("nested-stream-body")
         yield "n0"
 
-    async def source():
+    async def source(_unused=None):
       try:
           gen_probe("start")
           for i in range(k):
@@ -373,6 +379,29 @@ def execute(program, ch: Chooser) -> Result:  # noqa: C901, PLR0912, PLR0915
           cleanup.append(len(inside))
           if feature == "record-cleanup":
               ctx.record(StreamMetric(n=99))  # recorded by the generator's clean-up code
+
+    # what is handed to ctx.stream: the generator function itself, a plain function that does
+    # some work in the context and returns the generator, a functools.partial, a callable object
+    source_form = program.get("source_form", "function")
+    if source_form == "function":
+        stream_source = source
+    elif source_form == "wrapper":
+
+        def stream_source():
+            gen_probe("source-called")  # code run when the source is called sees the creation context
+            return source()
+
+    elif source_form == "partial":
+        import functools
+
+        stream_source = functools.partial(source, None)
+    else:
+
+        class CallableSource:
+            def __call__(self):
+                return source()
+
+        stream_source = CallableSource()
 
     def fp(where: str) -> None:
         consumer_fp.append([where, _state_token(tags), _log_token()])
@@ -450,7 +479,7 @@ def execute(program, ch: Chooser) -> Result:  # noqa: C901, PLR0912, PLR0915
         if created == "in-two-scopes":
             async with ctx.scope("grand", completion=cb("grand")):
                 async with ctx.scope("creator", a1, completion=cb("creator")):
-                    stream_box["s"] = ctx.stream(source)
+                    stream_box["s"] = ctx.stream(stream_source)
                     if place == "same":
                         await consume(stream_box.pop("s"))
                     elif place == "other-task":
@@ -461,7 +490,7 @@ def execute(program, ch: Chooser) -> Result:  # noqa: C901, PLR0912, PLR0915
             # which have both been left - and completed - before the task gets to run
 
             async def late_worker():
-                await consume(ctx.stream(source))
+                await consume(ctx.stream(stream_source))
 
             with ctx.scope("grand", completion=cb("grand")):
                 with ctx.scope("creator", a1, completion=cb("creator")):
@@ -469,14 +498,14 @@ def execute(program, ch: Chooser) -> Result:  # noqa: C901, PLR0912, PLR0915
             await late
         elif created == "in-scope":
             async with ctx.scope("creator", a1, completion=cb("creator")):
-                stream_box["s"] = ctx.stream(source)
+                stream_box["s"] = ctx.stream(stream_source)
                 if place == "same":
                     await consume(stream_box.pop("s"))
                 elif place == "other-task":
                     handoff.set_result(stream_box.pop("s"))
                     await other
         else:
-            stream_box["s"] = ctx.stream(source)
+            stream_box["s"] = ctx.stream(stream_source)
             if place == "same":
                 await consume(stream_box.pop("s"))
             elif place == "other-task":
